@@ -411,6 +411,11 @@ def opener_shape(f):
     from ..paths import canon_test
 
     out = []
+    stored = {x.id for x in walk_own(f.node) if isinstance(x, ast.Name) and isinstance(x.ctx, ast.Store)}
+    if any(isinstance(x, ast.Call) and isinstance(x.func, ast.Name) and x.func.id in stored for x in walk_own(f.node)):
+        from ..core import inline_callable_aliases, sink_into_branches, desugar_ifexp
+
+        f = inline_callable_aliases(sink_into_branches(desugar_ifexp(f)))  # `opener = A if gz else B; h = opener(path)`
     for n in walk_own(f.node):
         if isinstance(n, ast.If) and _calls_sniffer(f, n.test):
             t, pol = canon_test(n.test, True)
@@ -451,6 +456,8 @@ def r03_6(ctx, run, info):
     if not shapes:
         # how is the handle opened at all?
         defs = [norm(st.value) for st in walk_own(run.node) if isinstance(st, ast.Assign) and norm(st.targets[0]) == h]
+        if any(isinstance(st, ast.Assign) and norm(st.targets[0]) == h and isinstance(st.value, ast.Call) and isinstance(st.value.func, ast.Name) and st.value.func.id in {x.id for x in walk_own(run.node) if isinstance(x, ast.Name) and isinstance(x.ctx, ast.Store)} for st in walk_own(run.node)):
+            raise AnalysisError("R03.6", run.where(), f"the handle is opened through a local callable ({defs}) this rule cannot resolve")
         ctx.violated("R03.6", run.where(), f"the handle whose tell() is stored is opened as {defs}, not with the sniff -> (BGZFile | open) pair the seeking reader uses", key_of(run, f"opener:{defs}"), opened=defs)
         return
     n, a, b = shapes[0]
